@@ -215,6 +215,9 @@ func (c *UDPConn) send(p []byte, to netip.AddrPort) (int, error) {
 	}
 	data := append([]byte(nil), p...)
 	w.logf("usend", "%s n=%d", lk, len(p))
+	if RandProbe != nil {
+		w.logf("rand_probe", "%d", RandProbe())
+	}
 	if w.Partitioned != nil && w.Partitioned(src.Addr(), to.Addr()) {
 		s.Fault("partition_drop")
 		return len(p), nil
@@ -384,3 +387,10 @@ func (w *World) dialUDP(owner Owner, label string, src netip.Addr, address strin
 	w.logf("udial", "%s owner=%s", c.Label, owner)
 	return c, nil
 }
+
+// ID is the world-unique number of this socket.
+func (c *UDPConn) ID() int { return c.id }
+
+// RandProbe, when set, is logged at every datagram send (debugging aid for
+// determinism: exposes the position of the runtime's random stream).
+var RandProbe func() uint64
